@@ -189,6 +189,18 @@ func checkCase(c joinCase) evid.Outcome {
 	if ok, err := libValidate(&c, want); err != nil || !ok {
 		return evid.Fail("Validate*JoinMIC rejects the specification MIC (ok=%v err=%v)", ok, err)
 	}
+	if c.F.MType != ref.MTJoinAccept {
+		// receive path: the frame as decoded from the wire validates against the specification MIC
+		g := c.F
+		g.MIC = want
+		var q lorawan.PHYPayload
+		if err := q.UnmarshalBinary(g.Encode()); err != nil {
+			return evid.Fail("UnmarshalBinary(%x): %v", g.Encode(), err)
+		}
+		if ok, err := q.ValidateUplinkJoinMIC(gen.LibKey(toKey(c.Key))); err != nil || !ok {
+			return evid.Fail("the frame %x decoded from the wire carries the specification MIC %x but ValidateUplinkJoinMIC answers %v (err %v)", g.Encode(), want[:], ok, err)
+		}
+	}
 	for bit := 0; bit < 32; bit += 7 {
 		bad := want
 		bad[bit/8] ^= 1 << uint(bit%8)
